@@ -550,6 +550,38 @@ func init() {
 			gen2("", 4)
 			names = append(names, "", "a[0]", "a[01]", "a[0][1]", "a[0]b", "a[]", "a[-1]", "a[0", "a0]", "9a", "_9", "é", "aé", "a[٣]", "...", "...[0]", "...[12]", "....", "..", "...[a]", "...[0][1]", "a...", "...a", "0b1", "a-b", "a.b", "T", "L", "BOOLEAN", "a\n", "\ta")
 			nodeKinds := []ref.Kind{ref.I2, ref.U4, ref.F8, ref.B, ref.BOOLEAN, ref.A, ref.L}
+			// the same judgement must not depend on what was validated before: a second pass visits the
+			// node kinds in the opposite order (lists, where "..." is legal, first) for every name
+			revKinds := []ref.Kind{ref.L, ref.A, ref.BOOLEAN, ref.B, ref.F8, ref.U4, ref.I2}
+			sp = append(sp, h.Space{Name: "variable-names-lists-first", Count: uint64(len(names)), ChunkHint: 4096,
+				Describe: func(i uint64) interface{} { return fmt.Sprintf("name %q in a list, then in every other node kind", names[i]) },
+				Run: func(c *h.Ctx, i uint64) {
+					name := names[i]
+					for _, k := range revKinds {
+						if k == ref.B && strings.HasPrefix(name, "0b") {
+							continue
+						}
+						valid := validVarName(name)
+						var it ast.ItemNode
+						var pan string
+						switch k {
+						case ref.A:
+							it, pan = tryItem(func() ast.ItemNode { return ast.NewASCIINodeVariable(name, 0, -1) })
+						case ref.L:
+							it, pan = tryItem(func() ast.ItemNode { return ast.NewListNode(ast.NewUintNode(1, 1), name) })
+							valid = valid || validEllipsis(name)
+						case ref.BOOLEAN:
+							it, pan = tryItem(func() ast.ItemNode { return ast.NewBooleanNode(true, name) })
+						default:
+							it, pan = tryItem(func() ast.ItemNode { return mkNumeric(k, 1, name) })
+						}
+						c.Ops(1)
+						if !valid && pan == "" {
+							c.Fail("invalid-variable-name-accepted:"+k.String(), fmt.Sprintf("variable name %q in %s (after it was used in a list)", name, k), itemString(it))
+						}
+					}
+					c.Case(0, true, "names-lists-first")
+				}})
 			sp = append(sp, h.Space{Name: "variable-names-x-node-kind", Count: uint64(len(names) * len(nodeKinds)),
 				Describe: func(i uint64) interface{} {
 					return fmt.Sprintf("variable name %q in %s", names[i/uint64(len(nodeKinds))], nodeKinds[i%uint64(len(nodeKinds))])
